@@ -435,7 +435,13 @@ class ElemEngine:
                 return self.iter_object(a[0], path)
             if it[1] in self.pdb.bodies and s in ('index', 'index_mut'):
                 return it
+            if s in ('deref', 'deref_mut', 'as_mut_slice', 'as_slice', 'as_mut', 'as_ref', 'borrow_mut', 'borrow') and a:
+                return self.iter_object(a[0], path)
+            if it[3] is not None and not path:
+                return it          # an owned buffer built by a call (vec![..], with_capacity, to_vec ..): the object itself
             return None
+        if k == 'index' and tag(it[2]) == 'range' and not path:
+            return self.iter_object(it[1], path)      # a sub-slice x[a..b] views x
         return it
 
     # ------------------------------------------------------------------ closures
